@@ -223,6 +223,17 @@ class Engine(object):
     def _first_use(self, st, a, t):
         st.env[a] = Lin.atom(a)
         self.type_facts(st, st.env[a], t)
+        if '.f:' in a:
+            if not hasattr(self, '_bits'):
+                self._bits = {}
+                for r in self.P.records.values():
+                    for f in r['fields']:
+                        if f.get('bits'):
+                            self._bits[strip_targs(f['ref'])] = f['bits']
+            b = self._bits.get('f:' + a.rsplit('.f:', 1)[1])
+            if b:
+                st.cons.append(ge(st.env[a]))
+                st.cons.append(ge(Lin.const(2 ** b - 1) - st.env[a]))
 
     def size_of(self, st, oa):
         key = oa + '.size()'
@@ -389,11 +400,26 @@ class Engine(object):
         info = {}
         for h, body in heads.items():
             atoms, prefixes = set(), set()
+            nonmono = set()
             for b in body:
                 for e in fn.blocks[b].elems:
                     if 'n' in e:
-                        self._written(fn, e['n'], atoms, prefixes)
-            info[h] = (body, atoms, prefixes)
+                        a1, p1 = set(), set()
+                        self._written(fn, e['n'], a1, p1)
+                        atoms |= a1
+                        prefixes |= p1
+                        n = fn.N(e['n'])
+                        up = False
+                        if n['k'] == 'UnaryOperator' and n.get('op') == '++':
+                            up = True
+                        elif n['k'] == 'CompoundAssignOperator' and n.get('op') == '+=':
+                            rt = fn.type_of(fn.N(fn.strip(n['ch'][1])))
+                            rv = fn.const_value(n['ch'][1])
+                            up = (rv is not None and rv >= 0) or is_unsigned(rt)
+                        if not up:
+                            nonmono |= a1
+                        nonmono |= p1
+            info[h] = (body, atoms, prefixes, atoms - nonmono)
         fn._loopinfo = info
         return info
 
@@ -442,7 +468,14 @@ class Engine(object):
                         atoms.add(a)
                         prefixes.add(a)
 
-    def havoc(self, st, atoms=(), prefixes=()):
+    def havoc(self, st, atoms=(), prefixes=(), mono=()):
+        for k in mono:
+            # only ever incremented inside the loop: the value at the head is the entry value plus something >= 0
+            if k in st.env:
+                d = Lin.atom(self.newatom('grown:' + k.split('::')[-1].split('@')[0]))
+                st.cons.append(ge(d))
+                st.env[k] = st.env[k] + d
+        atoms = set(atoms) - set(m for m in mono if m in st.env)
         for k in list(st.env.keys()):
             if k in atoms or any(k == p or k.startswith(p + '.') or k.startswith(p + '[') or (p.endswith('.') and k.startswith(p)) for p in prefixes):
                 t = self.obj_types.get(k)
@@ -476,8 +509,8 @@ class Engine(object):
             if start == 0 and b in loops:
                 if b in seen:
                     continue       # back edge: the head was analysed with everything the loop writes havocked
-                body, atoms, prefixes = loops[b]
-                self.havoc(st, atoms, prefixes)
+                body, atoms, prefixes, mono = loops[b]
+                self.havoc(st, atoms, prefixes, mono)
                 seen = seen | {b}
             ended = False
             elems = fn.blocks[b].elems
@@ -705,6 +738,13 @@ class Engine(object):
             self.oblige_range(fn, st, i, 'string(p,n)', pv, ln, 'std::string(p,n)', chain)
             st.val[i] = Lin.atom(self.newatom('str'))
             return None
+        if k in ('CXXConstructExpr', 'CXXTemporaryObjectExpr') and bcn == 'std::basic_string::basic_string' and len(args) >= 2 and (n.get('ov') or ['', ''])[0] == 'const char *' and \
+                (n.get('ov') or ['', ''])[1] == 'const char *':
+            first = self.value(fn, st, args[0])
+            last = self.value(fn, st, args[1])
+            if self.base_of(first) and self.base_of(first) == self.base_of(last):
+                self.oblige_range(fn, st, i, 'string(first,last)', first, last - first, 'std::string(first,last)', chain)
+            return None
         if k == 'CXXMemberCallExpr':
             o = fn.obj(i)
             oa = self.path_atom(fn, o) if o is not None else None
@@ -736,7 +776,7 @@ class Engine(object):
         if k == 'CXXOperatorCallExpr' and n.get('op') == '[]' and len(n['ch']) == 3:
             oa = self.path_atom(fn, n['ch'][1])
             ot = fn.type_of(fn.N(fn.strip(n['ch'][1]))) or ''
-            if oa and any(x in ot for x in ('std::vector', 'std::basic_string')):
+            if oa and ot.replace('const ', '').startswith(('std::vector<', 'std::basic_string<')):
                 idx = self.value(fn, st, n['ch'][2])
                 par = fn.parent.get(i)
                 addr = par is not None and fn.N(par)['k'] == 'UnaryOperator' and fn.N(par).get('op') == '&'
